@@ -1,5 +1,5 @@
 """Seeded generator of well-typed VyCore programs (Vyper text + Coq term) and call sequences."""
-from vlib.c01_ast import E, S, Fun, Program, U256, BOOL, ADDR, is_int, int_bounds, zero_val
+from vlib.c01_ast import E, S, Fun, Program, U256, BOOL, ADDR, DEC, DEC_SCALE, is_int, int_bounds, zero_val
 from vlib.c01_harness import Call
 from vlib.evm import DEPLOYER, SENDER2
 
@@ -11,10 +11,11 @@ ARITH = ["Add"] * 4 + ["Sub"] * 3 + ["Mul"] * 3 + ["Div"] * 2 + ["Mod"] * 2 + ["
 CMPS = ["Lt", "Le", "Gt", "Ge", "Eq", "Ne"]
 
 BL = ("bytes", "string")
-PRIMS = ("int", "bool", "addr", "flag")
+PRIMS = ("int", "bool", "addr", "flag", "dec")
+DEC_ARITH = ["Add", "Add", "Sub", "Sub", "DMul", "DMul", "DDiv", "DDiv", "Mod"]
 PRINTABLE = b"abcdefghijklmnopqrstuvwxyzABCDEFGHIJKLMNOPQRSTUVWXYZ0123456789 _-+*/.,:;!?()[]{}<>=#@%&^~|"
 
-ALL_FEATURES = {"probes", "maps", "reasons", "bytes", "strings", "shifts", "pow", "defaults", "ctor", "flags", "convert", "ifexp", "minmax", "bitops", "internal", "loops", "arrays", "dynarrays", "structs",
+ALL_FEATURES = {"probes", "maps", "reasons", "bytes", "strings", "shifts", "pow", "defaults", "ctor", "flags", "decimals", "convert", "ifexp", "minmax", "bitops", "internal", "loops", "arrays", "dynarrays", "structs",
                 "transient", "sender", "value", "fordyn", "forin"}
 
 
@@ -41,10 +42,19 @@ class Gen:
     def int_type(self):
         return self.r.choice(INT_TYPES)
 
+    def elem_type(self):
+        for _ in range(10):
+            t = self.prim_type()
+            if t[0] != "flag":
+                return t
+        return U256
+
     def prim_type(self):
         x = self.r.random()
         if getattr(self, "flag_types", None) and x > 0.9:
             return self.r.choice(self.flag_types)
+        if getattr(self, "use_dec", False) and 0.8 < x <= 0.9:
+            return DEC
         if x < 0.2:
             return BOOL
         if x < 0.25 and "sender" in self.feat:
@@ -55,6 +65,14 @@ class Gen:
         r = self.r
         if t[0] == "flag":
             return r.randrange(0, 2 ** t[2]) if r.random() < 0.8 else r.choice([0, 2 ** t[2] - 1])
+        if t[0] == "dec":
+            lo, hi = int_bounds(t)
+            x = r.random()
+            if x < 0.7:
+                return r.choice([0, 1, 2, 3, 10, -1, -2, 7]) * DEC_SCALE + r.choice([0, 0, 5 * 10 ** 9, 25 * 10 ** 8, 1, 10 ** 9 + 1, 3333333333])
+            if x < 0.85:
+                return r.choice([hi, lo, hi - 1, lo + 1, hi // 2])
+            return r.randrange(-10 ** 15, 10 ** 15)
         if t[0] == "bool":
             return r.random() < 0.5
         if t[0] == "addr":
@@ -253,6 +271,8 @@ class Gen:
                 opts += ["shift"]
             if "pow" in self.feat:
                 opts += ["pow"]
+            if getattr(self, "use_dec", False):
+                opts += ["fromdec"]
             if "convert" in self.feat:
                 opts += ["conv"] * 2
             if t == U256 and "dynarrays" in self.feat and any(c.ty[0] == "darr" for c in self.containers(cx, scope)):
@@ -274,6 +294,8 @@ class Gen:
                 opts += ["sender"] * 2
         elif t[0] == "flag":
             opts += ["flagbit"] * 3 + ["flagnot"]
+        elif t[0] == "dec":
+            opts += ["decbin"] * 5 + ["neg", "todec"] + (["minmax"] if "minmax" in self.feat else [])
         if "ifexp" in self.feat and t[0] in ("int", "bool"):
             opts += ["ifexp"]
         if self.callable_funs(cx, t):
@@ -341,7 +363,7 @@ class Gen:
         if k == "sender":
             return E("sender", ADDR)
         if k == "cmp":
-            avail = sorted({vt for (_n, _i, vt, _m) in scope if is_int(vt)} | {vt for _n, vt in self.prog.sto if is_int(vt)})
+            avail = sorted({vt for (_n, _i, vt, _m) in scope if is_int(vt) or vt == DEC} | {vt for _n, vt in self.prog.sto if is_int(vt) or vt == DEC})
             if avail and r.random() < 0.75:
                 ct = r.choice(avail)
             else:
@@ -354,6 +376,29 @@ class Gen:
             if r.random() < 0.3:
                 a, b = b, a
             return E("cmp", BOOL, op=op, a=a, b=b)
+        if k == "decbin":
+            op = r.choice(DEC_ARITH)
+            a = self.nonlit(cx, scope, t, d - 1)
+            if a is None:
+                return None
+            if op in ("DDiv", "Mod"):
+                b = self.lit(t, nonzero=True) if r.random() < 0.7 else self.expr(cx, scope, t, d - 1, nonzero_lit=True)
+            else:
+                b = self.expr(cx, scope, t, d - 1)
+            if op in ("Add", "DMul") and r.random() < 0.3:
+                a, b = b, a
+            return E("bin", t, op=op, a=a, b=b)
+        if k == "todec":
+            st = self.int_type()
+            a = self.nonlit(cx, scope, st, d - 1)
+            return None if a is None else E("dec", DEC, mode="ToDec", a=a)
+        if k == "fromdec":
+            a = self.nonlit(cx, scope, DEC, d - 1)
+            if a is None:
+                return None
+            if t == ("int", 256, True) and r.random() < 0.5:
+                return E("dec", t, mode=r.choice(["Floor", "Ceil"]), a=a)
+            return E("dec", t, mode="FromDec", a=a)
         if k in ("flagbit", "flagnot"):
             a = self.nonlit(cx, scope, t, d - 1)
             if a is None:
@@ -831,8 +876,8 @@ class Gen:
             e = E("conv", U256, a=e) if (not t[2]) else E("conv", U256, a=E("bin", t, op="BAnd", a=e, b=E("const", t, v=int_bounds(t)[1])))
         elif t == BOOL:
             e = E("conv", U256, a=e)
-        elif t == ADDR:
-            return S("assert", e=E("cmp", BOOL, op="Eq", a=e, b=e.clone())) if False else S("pass")
+        elif t == ADDR or t[0] in ("dec", "flag"):
+            return S("pass")
         return S("log", name="Ev0", id=0, fields=["x"], args=[e])
 
     def copy_idiom(self, cx, scope, d):
@@ -998,7 +1043,7 @@ class Gen:
         if "defaults" in self.feat and params and r.random() < 0.3:
             k = r.randrange(1, len(params) + 1)
             for i in range(len(params) - k, len(params)):
-                if params[i][1][0] not in PRIMS:
+                if params[i][1][0] not in ("int", "bool", "addr", "dec"):      # a flag default must be a single literal member
                     defaults = {}
                     break
                 defaults[i] = self.lit(params[i][1])
@@ -1298,6 +1343,11 @@ class Gen:
         self.prog = p
         self.writes = {}
         self.comp_types = []
+        self.use_dec = "decimals" in self.feat and r.random() < 0.25
+        self.flag_types = []
+        if "flags" in self.feat and r.random() < 0.3:
+            self.flag_types = [("flag", "Fl0", r.choice([1, 2, 3, 8, 16]))]
+            p.flags = list(self.flag_types)
         if "structs" in self.feat and r.random() < 0.5:
             nf = r.randrange(1, 4)
             st = ("struct", "St0", tuple((f"m{k}", self.prim_type()) for k in range(nf)))
@@ -1305,11 +1355,11 @@ class Gen:
             self.comp_types.append(st)
         if "arrays" in self.feat and r.random() < 0.6:
             for _ in range(r.randrange(1, 3)):
-                et = r.choice([self.prim_type(), self.prim_type()] + [t for t in self.comp_types if t[0] == "struct"])
+                et = r.choice([self.elem_type(), self.elem_type()] + [t for t in self.comp_types if t[0] == "struct"])
                 self.comp_types.append(("sarr", et, r.randrange(1, 4)))
         if "dynarrays" in self.feat and r.random() < 0.6:
             for _ in range(r.randrange(1, 3)):
-                et = r.choice([self.prim_type(), self.prim_type()] + [t for t in self.comp_types if t[0] == "struct"])
+                et = r.choice([self.elem_type(), self.elem_type()] + [t for t in self.comp_types if t[0] == "struct"])
                 self.comp_types.append(("darr", et, r.randrange(1, 5)))
         if "arrays" in self.feat and self.comp_types and r.random() < 0.2:
             inner = r.choice([t for t in self.comp_types])
@@ -1392,7 +1442,9 @@ class Gen:
             return r.choice([0, 1, int(SENDER2, 16), 2 ** 160 - 1]) if r.random() > 0.03 else 2 ** 160
         lo, hi = int_bounds(t)
         x = r.random()
-        if x < 0.6:
+        if t[0] == "dec" and x < 0.6:
+            v = r.choice([0, 1, 2, 3, -1, 10]) * DEC_SCALE + r.choice([0, 5 * 10 ** 9, 1])
+        elif x < 0.6:
             v = r.choice([0, 1, 1, 2, 2, 3, 4, 5, 6, 7, 8, 9, 10, 11, 20, 50])
         elif x < 0.7 and lo < 0:
             v = -r.choice([1, 2, 3, 5, 10])
